@@ -43,6 +43,23 @@ CLAIMED.update({
     ),
 })
 
+CLAIMED.update({
+    "C03": (
+        "Coq/Coquelicot proofs (auto_derive + field, symbolic real parameters) over formulas re-translated from rtransform.py each run + interval-arithmetic translation validation",
+        "89 theorems about the definitions regenerated from src/grid/rtransform.py on every run (py2coq/real): for each of the 11 transform "
+        "classes and ALL real parameters the constructor admits (k, m any positive real) and all interior x: deriv/deriv2/deriv3 are the "
+        "successive derivatives of transform (is_derive), inverse undoes transform both ways, sign of deriv (monotonicity; MultiExp decreasing), "
+        "value end points; the generic BaseTransform.deriv*_inverse and InverseRTransform formulas are the first three derivatives of the "
+        "inverse map (inverse function theorem, proved once, instantiated for Becke/MultiExp/Knowles/Handy). The translator is validated on "
+        "every run by `interval` enclosures of each generated term against the implementation's float output at random dyadic inputs.",
+        "Trusted: Coq kernel; stdlib real-number axioms (reported per theorem); py2coq/real translator (fail-closed subset) + interval "
+        "tactic for its validation; IEEE rounding < 1e-9 relative at sampled points; trim_inf endpoint branch and array/scalar dispatch are "
+        "checked on the implementation only; HandyMod theorems assume the common denominator is non-zero (2^m - 1 < rmax - rmin for monotonicity); "
+        "left end points of Rpower-based maps (x = -1) are outside Rpower's domain and covered by the implementation sweep only.",
+        "DESIGN.md section 6 C03",
+    ),
+})
+
 NOT_YET = {
     # pid: reason (kept current; a property moves to CLAIMED once its check is green on the unchanged tree)
 }
